@@ -211,7 +211,12 @@ def reference(ops, tab, obs, stale_attrs=False):
                 if got != [b"notfound"]:
                     return n, "Requirements of a key never added is not reported as not found", [b"notfound"]
             elif got[0] != b"ok" or not check_sorted_deps(store[k][1], got[1]):
-                return n, "Requirements are not those of the most recent addition in resolution order", [b"ok", store[k][1]]
+                want = store[k][1]
+                if want and want[0][0] == NPM:
+                    import functools
+                    want = sorted(want, key=functools.cmp_to_key(
+                        lambda a, b: -1 if cc.dep_less(a, b) else (1 if cc.dep_less(b, a) else 0)))
+                return n, "Requirements are not those of the most recent addition in resolution order", [b"ok", want]
         elif t in (2, 4):
             s, name = o[1], o[2]
             if (s, name) not in known:
